@@ -19,6 +19,10 @@
                                                stored value read back, 6.5.16p3)
      OpAssign(p, op)    p |= c, p ^= c, p += 1, p++, --p   (through the hidden
                                                pointer of to_assign in chibicc)
+     NestedStore(p, r, how)  p = (r = v) | p = f() where f stores to r | p = ++r | p = r++ : the right-hand
+                        side has a side effect on ANOTHER, disjoint lvalue of the same object; both
+                        objects end up with their values whatever the order of the two stores, so an
+                        implementation that merges a stale copy of a shared storage unit is wrong
      StoreAgg(p, v)     p = tmp  for an aggregate / floating member (bytes)
      CopyAgg            obj = src  /  ( *p) = ( *q) (whole aggregate)
      ZeroFill(p, v)     T obj = { .first = v }  (the rest is zero: ND_MEMZERO)
@@ -40,7 +44,7 @@
 
    Generation: in the generation configuration (Walk = TRUE) each shape is
    walked once: every path is stored to in turn with rotating value kinds,
-   then the op-assign / copy / zero-fill steps; every step is written out
+   then the op-assign round, the nested-side-effect round, copy and zero fill; every step is written out
    with the memory Level A expects after it.                                *)
 EXTENDS Integers, Sequences, FiniteSets, TLC, Json, CSV, IOUtils, SequencesExt
 
@@ -190,6 +194,19 @@ ByHops(ty, hops, k, addr) ==
 Forms == {"dot", "arrow", "addr_arrow", "deref_dot", "index", "ptr_add", "rev_index", "charcast"}
 EvalForm(f, T, p) == IF f = "charcast" /\ p.ty.k # "bf" THEN p.pos \div 8 ELSE ByHops(T, p.hops, 1, 0)
 
+(* Rows of a 2-D VLA `T a[n][m]` (element size esz): a pointer to a row is a byte offset into the block;
+   pointer +/- integer scales by the RUN-TIME row size m*esz, the difference of two row pointers counts
+   rows; a[x][y], ( *(end - k))[y], (&a[i] - k)[0][y], p -= k, --p all designate RowAddr + y*esz.
+   (Replayed by c04_blocks.py contexts vla2d / vla_sub / vla_ptrdiff.)                                  *)
+RowAddr(m, esz, x) == x * (m * esz)
+RowAdd(ptr, k, m, esz) == ptr + k * (m * esz)
+RowSub(ptr, k, m, esz) == ptr - k * (m * esz)
+RowDiff(p1, p2, m, esz) == (p1 - p2) \div (m * esz)
+ASSUME \A n \in 1..4, m \in {1, 3}, k \in 0..4 : k <= n =>
+         /\ RowSub(RowAddr(m, 4, n), k, m, 4) = RowAddr(m, 4, n - k)
+         /\ RowAdd(RowSub(RowAddr(m, 4, n), k, m, 4), k, m, 4) = RowAddr(m, 4, n)
+         /\ RowDiff(RowAddr(m, 4, n), RowAddr(m, 4, n - k), m, 4) = k
+
 ----------------------------------------------------------------------------
 (* Bytes and bits *)
 Bit(bs, i) == (bs[(i \div 8) + 1] \div (2 ^ (i % 8))) % 2
@@ -245,7 +262,7 @@ vars == <<T, mem, prev, last, n, ps, vm, sid>>
 
 InitMem(t) == [pre |-> Fill("pre", GuardSize), obj |-> Fill("obj", t.sz), post |-> Fill("post", GuardSize),
                src |-> Fill("src", t.sz)]
-NoStep == [act |-> "init", pi |-> 0, v |-> "", op |-> "", res |-> <<>>, pos |-> 0, w |-> 0, unspec |-> FALSE]
+NoStep == [act |-> "init", pi |-> 0, v |-> "", op |-> "", res |-> <<>>, pos |-> 0, w |-> 0, unspec |-> FALSE, pj |-> 0, pos2 |-> 0, w2 |-> 0]
 BS == SetToSeq(Before)   TS == SetToSeq(Targets)   AS == SetToSeq(After)   KS == <<"struct", "packed", "union">>
 NShapes == Len(BS) * Len(TS) * Len(AS) * 3
 Init == /\ \E bi \in DOMAIN BS, ti \in DOMAIN TS, ai \in DOMAIN AS, ki \in 1..3 :
@@ -256,6 +273,9 @@ Init == /\ \E bi \in DOMAIN BS, ti \in DOMAIN TS, ai \in DOMAIN AS, ki \in 1..3 
         /\ ~CrossesUnit(T)
         /\ mem = InitMem(T) /\ prev = mem /\ last = NoStep /\ n = 0 /\ ps = Paths(T) /\ vm = VMask(T)
 
+(* a bit-field of a union may share a byte with the padding of another member that an aggregate store
+   left unspecified; such a byte stays unspecified and is not compared                              *)
+Defined(m, pos, w) == \A j \in (pos \div 8 + 1)..((pos + w - 1) \div 8 + 1) : m[j] >= 0
 LoadLv(m, p) == IF IsBits(p) THEN GetBits(m.obj, p.pos, Width(p), p.ty.sg)
                 ELSE SubSeq(m.obj, p.pos \div 8 + 1, p.pos \div 8 + p.ty.sz)
 Mask(bytes, mask) == MkSeq(Len(bytes), LAMBDA i : IF mask[i] THEN bytes[i] ELSE -1)
@@ -276,7 +296,7 @@ StoreV(pi, kind) ==
       o2 == SetBits(mem.obj, p.pos, Width(p), v)
   IN Step([mem EXCEPT !.obj = o2],
           [act |-> "store", pi |-> pi, v |-> kind, op |-> "", res |-> GetBits(o2, p.pos, Width(p), p.ty.sg),
-           pos |-> p.pos, w |-> Width(p), unspec |-> FALSE])
+           pos |-> p.pos, w |-> Width(p), unspec |-> FALSE, pj |-> 0, pos2 |-> 0, w2 |-> 0])
 
 (* p = tmp for a floating / aggregate member: value bytes are copied, padding becomes unspecified *)
 StoreB(pi, kind) ==
@@ -285,7 +305,7 @@ StoreB(pi, kind) ==
       o2 == PutBytes(mem.obj, p.pos \div 8, bytes)
   IN Step([mem EXCEPT !.obj = o2],
           [act |-> "storeagg", pi |-> pi, v |-> kind, op |-> "", res |-> bytes, pos |-> p.pos, w |-> p.ty.sz * 8,
-           unspec |-> TRUE])
+           unspec |-> TRUE, pj |-> 0, pos2 |-> 0, w2 |-> 0])
 
 (* 8-byte arithmetic for op-assign *)
 Inc(v) == LET r == FoldLeft(LAMBDA acc, b : <<Append(acc[1], (b + acc[2]) % 256), (b + acc[2]) \div 256>>, <<<<>>, 1>>, v) IN r[1]
@@ -316,14 +336,40 @@ OpAssign(pi, op) ==
      /\ Step([mem EXCEPT !.obj = o2],
              [act |-> "opassign", pi |-> pi, v |-> "", op |-> op,
               res |-> IF op \in {"postinc", "postdec"} THEN cur ELSE GetBits(o2, p.pos, Width(p), p.ty.sg),
-              pos |-> p.pos, w |-> Width(p), unspec |-> FALSE])
+              pos |-> p.pos, w |-> Width(p), unspec |-> FALSE, pj |-> 0, pos2 |-> 0, w2 |-> 0])
+
+(* p = <expression with a side effect on r>, r another lvalue of the object with disjoint bits.
+   how = "chain"  p = (r = v)        "call"  p = f(&obj), f stores v to r and returns a constant
+         "preinc" p = ++r            "postinc" p = r++
+   Level A: the side effect on r and the store to p both take place (6.5.16p3: the value
+   computation of the right operand precedes the store to p; r and p are different objects).  *)
+Disj(p, r) == p.pos + Width(p) <= r.pos \/ r.pos + Width(r) <= p.pos
+IsBool(p) == p.ty.k = "bf" /\ p.ty.t = "bool"
+NestOK(pi, pj) == /\ pi # pj /\ IsBits(ps[pi]) /\ IsBits(ps[pj]) /\ Disj(ps[pi], ps[pj])
+                  /\ Defined(mem.obj, ps[pi].pos, Width(ps[pi])) /\ Defined(mem.obj, ps[pj].pos, Width(ps[pj]))
+IncOK(pj) == ~IsBool(ps[pj]) /\ (OpDefined(ps[pj], "preinc", GetBits(mem.obj, ps[pj].pos, Width(ps[pj]), ps[pj].ty.sg)) = TRUE)
+NestedStore(pi, pj, how, kind) ==
+  LET p == ps[pi]
+      r == ps[pj]
+      v == IF IsBool(r) THEN BoolVal(kind) ELSE IntVal(kind)
+      cur == GetBits(mem.obj, r.pos, Width(r), r.ty.sg)
+      o1 == SetBits(mem.obj, r.pos, Width(r), IF how \in {"chain", "call"} THEN v ELSE Inc(cur))
+      rv == CASE how = "call" -> IntVal("pat") [] how = "postinc" -> cur [] OTHER -> GetBits(o1, r.pos, Width(r), r.ty.sg)
+      rv2 == IF IsBool(p) THEN (IF rv = IntVal("zero") THEN IntVal("zero") ELSE IntVal("one")) ELSE rv
+      o2 == SetBits(o1, p.pos, Width(p), rv2)
+  IN /\ NestOK(pi, pj)
+     /\ how \in {"preinc", "postinc"} => IncOK(pj)
+     /\ Step([mem EXCEPT !.obj = o2],
+             [act |-> "nested", pi |-> pi, v |-> kind, op |-> how, res |-> GetBits(o2, p.pos, Width(p), p.ty.sg),
+              pos |-> p.pos, w |-> Width(p), unspec |-> FALSE, pj |-> pj, pos2 |-> r.pos, w2 |-> Width(r)])
+NHows == {"chain", "call", "preinc", "postinc"}
 
 (* obj = src  (also spelled *p = *q, and as a struct returned by value) *)
 CopyA(m) == [m EXCEPT !.obj = Mask(m.src, vm)]
 (* Level I: store() copies size bytes one at a time *)
 CopyI(m) == [m EXCEPT !.obj = FoldLeft(LAMBDA acc, i : IF i < T.sz - Bound /\ i < Len(acc) THEN [acc EXCEPT ![i + 1] = m.src[i + 1]] ELSE acc,
                                        m.obj, Range0(T.sz + 1))]
-CopyAgg == Step(CopyA(mem), [act |-> "copy", pi |-> 0, v |-> "", op |-> "", res |-> <<>>, pos |-> 0, w |-> T.sz * 8, unspec |-> TRUE])
+CopyAgg == Step(CopyA(mem), [act |-> "copy", pi |-> 0, v |-> "", op |-> "", res |-> <<>>, pos |-> 0, w |-> T.sz * 8, unspec |-> TRUE, pj |-> 0, pos2 |-> 0, w2 |-> 0])
 
 (* T obj = { first leaf = v }: every other value byte is zero (6.7.9p19/p21), padding unspecified *)
 ZeroFill(pi, kind) ==
@@ -332,7 +378,7 @@ ZeroFill(pi, kind) ==
       o2 == IF IsBits(p) THEN SetBits(z, p.pos, Width(p), IF p.ty.t = "bool" THEN BoolVal(kind) ELSE IntVal(kind))
             ELSE PutBytes(z, p.pos \div 8, Mask(ValOf(p.ty, kind), VMask(p.ty)))
   IN Step([mem EXCEPT !.obj = o2],
-          [act |-> "zerofill", pi |-> pi, v |-> kind, op |-> "", res |-> <<>>, pos |-> 0, w |-> T.sz * 8, unspec |-> TRUE])
+          [act |-> "zerofill", pi |-> pi, v |-> kind, op |-> "", res |-> <<>>, pos |-> 0, w |-> T.sz * 8, unspec |-> TRUE, pj |-> 0, pos2 |-> 0, w2 |-> 0])
 
 (* free exploration: every path x value kind / op at every step *)
 FreeNext ==
@@ -340,11 +386,14 @@ FreeNext ==
   /\ \/ \E pi \in DOMAIN ps, kind \in VKinds :
           IF IsBits(ps[pi]) THEN StoreV(pi, kind) ELSE (kind \in {"pat", "neg"} /\ StoreB(pi, kind))
      \/ \E pi \in DOMAIN ps, op \in Ops : IsBits(ps[pi]) /\ OpAssign(pi, op)
+     \/ \E pi \in DOMAIN ps, d \in {1, Len(ps) - 1}, how \in NHows :
+          LET pj == ((pi - 1 + d) % Len(ps)) + 1 IN Len(ps) > 1 /\ NestedStore(pi, pj, how, "neg")
      \/ CopyAgg
      \/ \E pi \in DOMAIN ps : ps[pi].ty.k # "agg" /\ ZeroFill(pi, "pat")
 (* guided walk: round 1 stores to every path in turn (value kinds rotate), round 2 op-assigns
    every integer path, then the copy and the zero fill                                         *)
 KSeq == <<"ones", "pat", "neg", "zero", "one">>
+NSeq == <<"chain", "postinc", "call", "preinc">>
 OSeq == <<"or", "postinc", "xor", "predec", "add1", "and", "preinc", "postdec">>
 WalkNext ==
   LET np == Len(ps) IN
@@ -360,8 +409,16 @@ WalkNext ==
            /\ OpDefined(ps[pi], op, GetBits(mem.obj, ps[pi].pos, Width(ps[pi]), ps[pi].ty.sg))
         THEN OpAssign(pi, op)
         ELSE IF IsBits(ps[pi]) THEN StoreV(pi, "one") ELSE StoreB(pi, "pat")
-  \/ n = 2 * np /\ CopyAgg
-  \/ /\ n = 2 * np + 1
+  \/ /\ n >= 2 * np /\ n < 3 * np                       \* round 3: the right-hand side writes the next disjoint integer path
+     /\ LET pi == n - 2 * np + 1
+            cand == SelectSeq([x \in 1..(np - 1) |-> ((pi - 1 + x) % np) + 1], LAMBDA pj : NestOK(pi, pj))
+            how0 == NSeq[((n + T.sz) % 4) + 1] IN
+        IF cand # <<>>
+        THEN NestedStore(pi, cand[1], IF how0 \in {"preinc", "postinc"} /\ ~IncOK(cand[1]) THEN "chain" ELSE how0,
+                    KSeq[((n + T.al) % 3) + 1])
+        ELSE IF IsBits(ps[pi]) THEN StoreV(pi, "neg") ELSE StoreB(pi, "neg")
+  \/ n = 3 * np /\ CopyAgg
+  \/ /\ n = 3 * np + 1
      /\ \E pi \in DOMAIN ps : /\ ps[pi].ty.k # "agg" /\ \A pj \in 1..(pi - 1) : ps[pj].ty.k = "agg"
                               /\ ZeroFill(pi, "pat")
 Next == IF Walk THEN WalkNext ELSE FreeNext
@@ -370,11 +427,8 @@ Spec == Init /\ [][Next]_vars
 ----------------------------------------------------------------------------
 (* Invariants *)
 LastPath == ps[last.pi]
-(* a bit-field of a union may share a byte with the padding of another member that an aggregate store
-   left unspecified; such a byte stays unspecified and is not compared                              *)
-Defined(m, pos, w) == \A j \in (pos \div 8 + 1)..((pos + w - 1) \div 8 + 1) : m[j] >= 0
 RoundTrip ==
-  (last.act \in {"store", "opassign"} /\ Defined(mem.obj, last.pos, last.w)) =>
+  (last.act \in {"store", "opassign", "nested"} /\ Defined(mem.obj, last.pos, last.w)) =>
      LET p == LastPath
          got == GetBits(mem.obj, p.pos, Width(p), p.ty.sg) IN
      /\ last.op \notin {"postinc", "postdec"} => got = last.res
@@ -382,15 +436,20 @@ RoundTrip ==
           LET v == IF p.ty.k = "bf" /\ p.ty.t = "bool" THEN BoolVal(last.v) ELSE IntVal(last.v) IN
           /\ \A i \in 0..(Width(p) - 1) : Bit(got, i) = Bit(v, i)                       \* truncation
           /\ \A i \in Width(p)..63 : Bit(got, i) = IF p.ty.sg THEN Bit(v, Width(p) - 1) ELSE 0   \* extension
-(* a step changes nothing outside [pos, pos+w) of obj *)
+     /\ (last.act = "nested" /\ last.op \in {"chain", "call"}) =>             \* the side effect of the rhs survives the outer store
+          LET r == ps[last.pj]
+              v == IF IsBool(r) THEN BoolVal(last.v) ELSE IntVal(last.v) IN
+          \A i \in 0..(Width(r) - 1) : Bit(mem.obj, r.pos + i) = Bit(v, i)
+(* a step changes nothing outside [pos, pos+w) (and [pos2, pos2+w2) for a nested step) of obj *)
+In1(i) == i >= last.pos /\ i < last.pos + last.w
+In2(i) == i >= last.pos2 /\ i < last.pos2 + last.w2
 Frame ==
   /\ mem.pre = Fill("pre", GuardSize) /\ mem.post = Fill("post", GuardSize) /\ mem.src = Fill("src", T.sz)
   /\ Len(mem.obj) = T.sz
   /\ \A j \in DOMAIN mem.obj :
-       IF (j - 1) * 8 + 7 < last.pos \/ (j - 1) * 8 >= last.pos + last.w THEN mem.obj[j] = prev.obj[j]
+       IF \A k \in 0..7 : ~In1((j - 1) * 8 + k) /\ ~In2((j - 1) * 8 + k) THEN mem.obj[j] = prev.obj[j]
        ELSE (~last.unspec /\ prev.obj[j] >= 0) =>
-              \A k \in 0..7 : LET i == (j - 1) * 8 + k IN
-                 (i < last.pos \/ i >= last.pos + last.w) => Bit(mem.obj, i) = Bit(prev.obj, i)
+              \A k \in 0..7 : LET i == (j - 1) * 8 + k IN (~In1(i) /\ ~In2(i)) => Bit(mem.obj, i) = Bit(prev.obj, i)
 FormsAgree ==
   \A pi \in DOMAIN ps : \A f \in Forms :
      LET p == ps[pi]
